@@ -1123,3 +1123,87 @@ fn get_char_offset(chars: &[char], byte_offset: usize) -> usize {
 
     chars.len()
 }
+
+/// Verification hook: the same pipeline as `format`, recording the
+/// edit lists and the text after every phase. The harness checks that
+/// the last text equals what `format` returns.
+#[cfg(wilfred_garden_verif)]
+pub(crate) struct VerifFormatTrace {
+    /// (phase name, text after the phase)
+    pub(crate) texts: Vec<(&'static str, String)>,
+    /// (line_number, new_indent), in the order they are handed to
+    /// `apply_indentation_edits`.
+    pub(crate) line_edits: Vec<(usize, usize)>,
+    /// (start_offset, end_offset, replacement), in the order they are
+    /// handed to `apply_span_edits` (before its sort).
+    pub(crate) span_edits: Vec<(usize, usize, String)>,
+    pub(crate) toplevel_start_lines: Vec<usize>,
+}
+
+#[cfg(wilfred_garden_verif)]
+pub(crate) fn verif_format_trace(src: &str, path: &Path) -> VerifFormatTrace {
+    let mut texts: Vec<(&'static str, String)> = vec![];
+
+    let src_owned = wrap_long_signatures(src, path);
+    let src = src_owned.as_str();
+    texts.push(("wrap", src.to_owned()));
+
+    let mut id_gen = IdGenerator::default();
+    let (_vfs, vfs_path) = Vfs::singleton(path.to_owned(), src.to_owned());
+    let (items, _errors) = parse_toplevel_items(&vfs_path, src, &mut id_gen);
+
+    let mut visitor = IndentationVisitor {
+        current_depth: 0,
+        line_edits: vec![],
+        processed_lines: FxHashSet::default(),
+        span_edits: vec![],
+        src: src.to_owned(),
+        toplevel_start_lines: vec![],
+    };
+    for item in &items {
+        visitor.visit_toplevel_item(item);
+    }
+    collect_comment_edits(
+        src,
+        &vfs_path,
+        &mut visitor.line_edits,
+        &mut visitor.processed_lines,
+    );
+
+    let span_edits = visitor
+        .span_edits
+        .iter()
+        .map(|e| (e.start_offset, e.end_offset, e.replacement.clone()))
+        .collect();
+    let line_edits = visitor
+        .line_edits
+        .iter()
+        .map(|e| (e.line_number, e.new_indent))
+        .collect();
+
+    let src_after_spans = apply_span_edits(src, &mut visitor.span_edits);
+    texts.push(("spans", src_after_spans.clone()));
+    let src_after_indent = apply_indentation_edits(&src_after_spans, &visitor.line_edits);
+    texts.push(("indent", src_after_indent.clone()));
+    let src_after_blanks = normalize_blank_lines(&src_after_indent, &visitor.toplevel_start_lines);
+    texts.push(("blanks", src_after_blanks.clone()));
+    let src_after_types = fix_type_annotation_spacing(&src_after_blanks, &vfs_path);
+    texts.push(("types", src_after_types.clone()));
+    let mut result = normalize_token_spacing(&src_after_types, &vfs_path);
+    texts.push(("spacing", result.clone()));
+
+    while result.ends_with("\n\n") {
+        result.pop();
+    }
+    if !result.is_empty() && !result.ends_with('\n') {
+        result.push('\n');
+    }
+    texts.push(("final", result));
+
+    VerifFormatTrace {
+        texts,
+        line_edits,
+        span_edits,
+        toplevel_start_lines: visitor.toplevel_start_lines,
+    }
+}
